@@ -67,9 +67,28 @@ def to_poly(t: Term, subst: Optional[Dict[Term, Term]] = None) -> Poly:
                 return add(a, b, -1)
             return mul(a, b)
         if op == '/':
-            b = is_const(to_poly(t[3], subst))
+            den = to_poly(t[3], subst)
+            b = is_const(den)
             if b is not None and b != 0:
                 return mul(to_poly(t[2], subst), _const(1 / b))
+            if len(den) == 1:
+                # exact division by a monomial when every numerator monomial contains it
+                (dm, dc), = den.items()
+                num = to_poly(t[2], subst)
+                out: Poly = {}
+                exact = True
+                for m, c in num.items():
+                    rest = list(m)
+                    for a in dm:
+                        if a in rest:
+                            rest.remove(a)
+                        else:
+                            exact = False
+                    if not exact:
+                        break
+                    out[tuple(rest)] = out.get(tuple(rest), Fraction(0)) + c / dc
+                if exact:
+                    return {m: c for m, c in out.items() if c != 0}
         if op == '**':
             e = is_const(to_poly(t[3], subst))
             base = to_poly(t[2], subst)
